@@ -144,6 +144,13 @@ def falsy(c) -> bool:
     return len(c[1]) == 0
 
 
+def null_elements_dropped(want_c, have_c) -> bool:
+    """have is want (a flat list with null AND non-null elements) without its null elements — the symptom of the
+    recorded finding C17-enum-list-default-null-dropped (Parser.__set_default_enum_member keeps `[e for e in … if e]`)"""
+    return (have_c is not None and want_c[0] == "l" and have_c[0] == "l" and ("none",) in want_c[1]
+            and len(have_c[1]) > 0 and have_c[1] == tuple(x for x in want_c[1] if x != ("none",)))
+
+
 def value_class(c) -> str:
     k = c[0]
     if k in ("none", "undefined"):
@@ -204,6 +211,10 @@ def rand_default_literal(rng: Rng, t, top: bool = True) -> str | None:
 def rand_in_type(rng: Rng, c17, names=None, max_lists: int = 2):
     # half of the fields carry no list wrapper: the scalar / enum / input-object defaults are the point
     return c17.rand_gtype(rng, names or D_IN_NAMES, 0 if rng.chance(1, 2) else max_lists)
+
+
+def _base_name(t) -> str:
+    return t[1] if t[0] == "n" else _base_name(t[1])
 
 
 def defaults_body(fields) -> str:
@@ -339,6 +350,13 @@ def campaign_defaults(ck: Check, c17, n_batches: int, per_batch: int) -> None:
                 camp_m.hit(f"kind:{kind}")
                 camp_m.hit(f"default:{cls_}")
                 have = shown.get(n, "member missing")
+                if (kind == "dataclasses.dataclass" and _base_name(t) == "Color" and model_member is not None
+                        and isinstance(have, tuple) and null_elements_dropped(model_member, have)):
+                    # the recorded finding C17-enum-list-default-null-dropped (a defect of stage 2, Parser.__set_default_enum_member,
+                    # which only the dataclass output switches on): outside what memberDefault models
+                    camp_m.unmodelled += 1
+                    camp_m.hit("recorded_finding:enum_list_default_null_dropped")
+                    continue
                 if have != model_member:
                     ck.disagree(camp_m, {**inp, "model_kind": kind}, model_member, have)
                 elif want not in (("undefined",), ("none",)):
@@ -643,3 +661,123 @@ def search_members(ck: Check, c17) -> None:
                 c17.oracle_case(ck, camp, sdl, kind, flags, {}, 23)
                 if ck.failures:
                     return
+
+
+# ------------------------------------------------------------------ msgspec output: static reading of the defaults
+def _static_value(node, enums: dict[str, dict[str, object]]):
+    import ast
+
+    if isinstance(node, ast.Constant):
+        return node.value
+    if isinstance(node, (ast.List, ast.Tuple)):
+        return [_static_value(e, enums) for e in node.elts]
+    if isinstance(node, ast.Dict):
+        return {_static_value(k, enums): _static_value(v, enums) for k, v in zip(node.keys, node.values)}
+    if isinstance(node, ast.UnaryOp) and isinstance(node.op, ast.USub):
+        return -_static_value(node.operand, enums)
+    if isinstance(node, ast.Attribute) and isinstance(node.value, ast.Name) and node.attr in enums.get(node.value.id, {}):
+        return enums[node.value.id][node.attr]  # a member of an Enum class of the module: the value it stands for
+    raise ValueError(f"not a literal: {ast.unparse(node)}")
+
+
+def static_members(code: str) -> dict[str, dict[str, tuple]]:
+    """class -> member -> ('required',) | ('default', canonical value) | ('odd', text), read from the
+    module text (class bodies only; nothing is executed)"""
+    import ast
+
+    tree = ast.parse(code)
+    enums: dict[str, dict[str, object]] = {}
+    for n in tree.body:
+        if isinstance(n, ast.ClassDef) and any(isinstance(b, ast.Name) and b.id == "Enum" for b in n.bases):
+            enums[n.name] = {t.id: a.value.value for a in n.body if isinstance(a, ast.Assign) and isinstance(a.value, ast.Constant)
+                             for t in a.targets if isinstance(t, ast.Name)}
+    out: dict[str, dict[str, tuple]] = {}
+    for n in tree.body:
+        if not isinstance(n, ast.ClassDef) or n.name in enums:
+            continue
+        members = out.setdefault(n.name, {})
+        for a in n.body:
+            if not (isinstance(a, ast.AnnAssign) and isinstance(a.target, ast.Name)):
+                continue
+            v = a.value
+            if isinstance(v, ast.Call) and isinstance(v.func, ast.Name) and v.func.id in ("field", "Field"):
+                kws = {k.arg: k.value for k in v.keywords}
+                if "default_factory" in kws and isinstance(kws["default_factory"], ast.Lambda):
+                    v = kws["default_factory"].body
+                elif "default" in kws:
+                    v = kws["default"]
+                elif v.args:
+                    v = v.args[0]
+                else:
+                    v = None
+            if v is None or (isinstance(v, ast.Constant) and v.value is Ellipsis):
+                members[a.target.id] = ("required",)
+                continue
+            try:
+                members[a.target.id] = ("default", canon(_static_value(v, enums)))
+            except Exception:  # noqa: BLE001
+                members[a.target.id] = ("odd", ast.unparse(v)[:80])
+    return out
+
+
+def static_case(ck: Check, camp, sdl: str, kind: str, flags: dict) -> None:
+    """The default clause of C17 on output that cannot be imported here (msgspec): every member of the class
+    of an input type that is not required shows graphql-core's default_value (None when there is none)."""
+    import graphql
+
+    camp.evaluations += 1
+    inp = {"sdl": sdl, "model": kind, "flags": flags, "scalar_map": {}, "seed": 1, "static": True}
+    base = {"oracle": "graphql_shape", "kind": kind, "static": True}
+    res = e2e.run_generate(sdl, input_file_type="graphql", model=kind, opts=dict(flags))
+    if res.hang:
+        camp.hit("hang(C01)")
+        return
+    if not res.ok:
+        ck.fail({**base, "mechanism": "generate_error"}, inp, f"generate() raised {res.error_type}: {res.error_msg}")
+        return
+    err = e2e.parses(res.code)
+    if err:
+        ck.fail({**base, "mechanism": "unparsable"}, inp, err)
+        return
+    members = static_members(res.code)
+    fo = bool(flags.get("force_optional_for_required_fields"))
+    schema = graphql.build_schema(sdl)
+    for n, t in schema.type_map.items():
+        if not graphql.is_input_object_type(t):
+            continue
+        if n not in members:
+            ck.fail({**base, "mechanism": "class_missing"}, inp, f"type {n}: no class of that name in the module")
+            return
+        for fname, f in t.fields.items():
+            camp.hit("field")
+            want_required = graphql.is_non_null_type(f.type) and not fo
+            have = members[n].get(fname)
+            if have is None:
+                ck.fail({**base, "mechanism": "members"}, inp, f"type {n}: no member {fname}")
+                return
+            if (have == ("required",)) != want_required:
+                ck.fail({**base, "mechanism": "required", "field_type": str(f.type)}, inp, f"{n}.{fname}: {f.type} → {have[0]}, expected required={want_required}")
+                return
+            if want_required:
+                continue
+            want_c = canon(None if f.default_value is graphql.Undefined else f.default_value)
+            camp.hit("input_default:" + value_class(want_c))
+            if have != ("default", want_c):
+                shown = show_canon(have[1]) if have[0] == "default" else have[1]
+                ck.fail({**base, "mechanism": "input_default" if want_c != ("none",) else "default_not_none", "field_type": str(f.type),
+                         "default_class": value_class(want_c)}, inp,
+                        f"{n}.{fname}: {f.type} = {show_canon(want_c)} in the schema → the member is written with the default {shown}")
+                return
+    camp.hit("all_checks_passed")
+
+
+def campaign_defaults_static(ck: Check, c17, n_docs: int) -> None:
+    camp = ck.campaign("static default oracle on msgspec.Struct output (class bodies read by ast; the module is not executable here): input-defaults family")
+    t0 = time.time()
+    rng = ck.rng.fork("defaults_static")
+    for _ in range(n_docs):
+        sdl = c17.render_doc(gen_defaults_doc(rng, c17))
+        flags = c17.c17_order.legal_flags({f: True for f in c17.FLAGS if rng.chance(1, 4)})
+        camp.distinct.add((sdl, json.dumps(flags, sort_keys=True)))
+        static_case(ck, camp, sdl, "msgspec.Struct", flags)
+    camp.wall_s = time.time() - t0
